@@ -104,6 +104,7 @@ def register(reg):
                  ensures=['all(implies(n in system.allobjects, visible(system.allobjects[n])) for n in lst)'],
                  loops={0: Loop(index='i', invariant=['all(implies(n in system.allobjects, visible(system.allobjects[n])) for n in lst2)'])})
     _index_roots(reg)
+    _undocumented_summary(reg)
 
 
 def _index_roots(reg):
@@ -122,3 +123,27 @@ def _index_roots(reg):
                  ensures=['len(result) <= len(self.system.rootobjects)'],
                  loops={0: Loop(index='i', modifies=['violations', 'once_msgs', 'needsnl'], invariant=['len(r) <= i'],
                                 asserts=["implies(called('taglink'), visible(arg_of('taglink', 'o')) and arg_of('taglink', 'page_url') == 'index.html')"])})
+
+
+def _undocumented_summary(reg):
+    """the 'undocumented objects' page: every linked object is visible; links are relative to that page"""
+    S = 'pydoctor/templatewriter/summary.py'
+    reg.shape('UndocumentedSummaryPage', {}, bases=('Page',))
+    reg.shapes['System'].fields.update({'allobjects': 'Map[Str,Ref[Documentable]]'})
+    reg.contract(S, 'hasdocstring', params={'ob': 'Ref[Documentable]'}, returns='Bool', raises={}, pure=True, assumed=True,
+                 reads=['docstring', 'name', 'parent'], source='whether a (possibly inherited) docstring exists')
+    reg.contract('pydoctor/epydoc2stan.py', 'format_kind', params={'kind': 'Enum[DocumentableKind]', 'plural': 'Bool'}, returns='Str', raises={},
+                 pure=True, assumed=True, source='display name of a kind')
+    reg.assume_ext('twisted.web.template.tags.li', params={'a': 'Any', 'b': 'Any', 'c': 'Any'}, returns='Obj[Tag]', raises={}, source='stan')
+    reg.assume_ext('<Tag>.__call__', params={'self': 'Obj[Tag]', 'child': 'Any'}, returns='Obj[Tag]', raises={}, source='stan')
+    reg.contract(M, 'Documentable.fullName', returns='Str', pure=True, reads=['name', 'parent'], raises={}, assumed=True, source='C02')
+    reg.contract(S, 'UndocumentedSummaryPage.stuff', params={'request': 'Obj[Req]', 'tag': 'Obj[Tag]'}, returns='Obj[Tag]',
+                 modifies=['violations', 'once_msgs', 'needsnl'],
+                 requires=["forall('Ref[Documentable]', lambda x: implies(x.documentation_location != DocLocation.OWN_PAGE, x.parent is not None) "
+                           "and x.parent != x)",
+                           # an object without a kind is hidden (System.privacyClass, verified under C13)
+                           "forall('Ref[Documentable]', lambda x: implies(visible(x), x.kind is not None))"],
+                 raises={},
+                 loops={0: Loop(index='i', modifies=['violations', 'once_msgs', 'needsnl'],
+                                invariant=['all(visible(undoccedpublic[j]) for j in range(len(undoccedpublic)))'],
+                                asserts=["visible(arg_of('taglink', 'o'))", "arg_of('taglink', 'page_url') == 'undoccedSummary.html'"])})
